@@ -29,7 +29,7 @@ AUX = {'mincost', 'minsqcost', 'lmb', 'lsb', 'mincostlsb'}
 
 
 def budget(tier):
-    return 5000 if tier == 'quick' else 100000
+    return 10000 if tier == 'quick' else 120000
 
 
 @st.composite
